@@ -46,6 +46,10 @@ type TableBatch struct {
 	Table string     `json:"table"`
 	Reqs  []WriteReq `json:"reqs,omitempty"`
 	Keys  []Item     `json:"keys,omitempty"`
+	// BatchGet only: the table's ProjectionExpression and the names it uses
+	// (the implementation validates them and returns whole items)
+	Projection string            `json:"projection,omitempty"`
+	Names      map[string]string `json:"names,omitempty"`
 }
 
 // Op is one abstract operation.
@@ -146,6 +150,7 @@ type Result struct {
 	OrderDesc bool   `json:"orderDesc,omitempty"`
 
 	Unprocessed     []TableBatch `json:"unprocessed,omitempty"`
+	Metrics string `json:"metrics,omitempty"` // BatchWrite: canonical rendering of the returned ItemCollectionMetrics
 	Responses       []TableBatch `json:"responses,omitempty"` // Keys holds returned items
 	UnprocessedKeys []TableBatch `json:"unprocessedKeys,omitempty"`
 	Desc            *Desc        `json:"desc,omitempty"`
@@ -173,6 +178,9 @@ type Table struct {
 type DB struct {
 	Tables  map[string]*Table
 	Failure string // "" | internal_server | deprecated
+	// MetricsSet: the SetItemCollectionMetrics helper was called (with the fixed
+	// map of the SetMetrics operation); every BatchWriteItem response carries it
+	MetricsSet bool
 }
 
 // NewDB returns an empty model.
@@ -609,6 +617,9 @@ func (db *DB) Apply(op Op) Result {
 		}
 		t.Items = map[string]Item{}
 		return Result{}
+	case "SetMetrics":
+		db.MetricsSet = true
+		return Result{}
 	case "SetFailure":
 		f := op.Failure
 		switch op.Via {
@@ -991,7 +1002,19 @@ func (t *Table) search(op Op, pr *parsedReq) Result {
 	return res
 }
 
+// MetricsCanon is the rendering of the item-collection metrics the SetMetrics
+// helper operation configures (one entry for each of two table names).
+const MetricsCanon = "tbl2:1 tbl:1" // (sorted as strings)
+
 func (db *DB) batchWrite(op Op) Result {
+	r := db.batchWriteCore(op)
+	if r.Err == "" && !r.Weak && !r.Spec && db.MetricsSet {
+		r.Metrics = MetricsCanon
+	}
+	return r
+}
+
+func (db *DB) batchWriteCore(op Op) Result {
 	n := 0
 	for _, tb := range op.Batch {
 		for _, r := range tb.Reqs {
@@ -1118,7 +1141,7 @@ func (db *DB) batchGet(op Op) Result {
 
 // Clone deep-copies the model.
 func (db *DB) Clone() *DB {
-	c := &DB{Tables: make(map[string]*Table, len(db.Tables)), Failure: db.Failure}
+	c := &DB{Tables: make(map[string]*Table, len(db.Tables)), Failure: db.Failure, MetricsSet: db.MetricsSet}
 	for n, t := range db.Tables {
 		nt := &Table{Schema: t.Schema, Items: make(map[string]Item, len(t.Items))}
 		nt.Schema.Attrs = make(map[string]string, len(t.Schema.Attrs))
